@@ -36,25 +36,107 @@ package utils
 //@ func utils.DecomposeNAF#eff
 //@ writes out
 
-// Memory safety of the signed-window recoding (its digit-level specification is covered by a bounded
-// stand-in only, see /verif/DESIGN.md C20): every index is in range for every input under the stated sizes.
+// Signed-window recoding (property C20), functional specification, for all inputs:
+//   digits   every digit is zero or odd with absolute value below 2^w
+//   spacing  at least w zeros follow every non-zero digit
+//   sum      for a 256-bit input (len(s) == 32, n == 257): sum over j < n of out[j] * 2^j == be(s)
+// together with memory safety for every n - 1 <= 8*len(s), n <= len(out), 1 <= w <= 7.
+// Spec functions (/verif/spec/ints.smt2): p2(k) = 2^k, vm(V,X) = V mod X, vd(V,X) = V div X (used with X = p2(k)),
+// nsum(A,o,a,b) = sum of A[o+j]*2^j over a <= j < b.  They are uninterpreted in the main obligations; every
+// arithmetic fact about them is an `unfold` instance proved on its own from the definitions, except (a) the two
+// induction lemmas about nsum (point update, all-zero), `trust` steps justified by the induction proofs in
+// /verif/spec/lemmas/nsum_*.smt2 (checked on every run), and (b) the steps m1 and m, instances of
+// V mod (K*X) = V mod X + X * ((V div X) mod K) (lemma L8, Lean proof in /verif/lemmas/NafLemmas.lean).
+// Loop invariant: with i = outIdx, sum_{j<n} out[j] 2^j + carry * 2^i == be(s) mod 2^i, everything at or above i
+// is still zero, and a carry can only be pending while i <= n-1.
+//@ define pow2w(w) = ite(w == 1, 2, ite(w == 2, 4, ite(w == 3, 8, ite(w == 4, 16, ite(w == 5, 32, ite(w == 6, 64, 128))))))
+//@ define nafstd(s, n) = len(s) == 32 && n == 257
+//@ define nafdigit(x, w) = x == 0 || (x % 2 == 1 && 0 - pow2w(w) < x && x < pow2w(w))
 //@ func utils.DecomposeNAF
-//@ mode bv
+//@ mode int
+//@ abstract p2, vm, vd, nsum
 //@ requires w: 1 <= w && w <= 7
 //@ requires n: 2 <= n && n <= 65536 && n - 1 <= 8 * len(s) && n <= len(out)
+//@ requires zero: forall(j, 0, n, out[j] == 0)
 //@ panics_if out == nil || s == nil
+//@ case w1: w == 1
+//@ case w2: w == 2
+//@ case w3: w == 3
+//@ case w4: w == 4
+//@ case w5: w == 5
+//@ case w6: w == 6
+//@ case w7: w == 7
+//@ ensures digits: forall(j, 0, n, nafdigit(out[j], w))
+//@ ensures spacing: forall(j, 0, n, out[j] != 0 ==> forall(t, j + 1, j + w + 1, t < n ==> out[t] == 0))
+//@ ensures sum: nafstd(s, n) ==> nsum(out, 0, n) == be(s)
+//@ after carry := false :: unfold base: vm(be(s), p2(0)) == 0
+//@ after carry := false :: unfold p0: p2(0) == 1
+//@ after carry := false :: trust zero: nsum_zero(arr(out), off(out), n)
+//@ after bit, carry = getBit(s, bitIdx-1, carry) :: unfold pos: (0 <= outIdx && outIdx <= 300) ==> p2(outIdx) >= 1
+//@ after bit, carry = getBit(s, bitIdx-1, carry) :: unfold pk1: (0 <= outIdx && outIdx <= 300) ==> p2(outIdx + 1) == 2 * p2(outIdx)
+//@ after bit, carry = getBit(s, bitIdx-1, carry) :: trust m1: (p2(outIdx) >= 1 && be(s) >= 0) ==> vm(be(s), 2 * p2(outIdx)) == vm(be(s), p2(outIdx)) + p2(outIdx) * (vd(be(s), p2(outIdx)) % 2)
+//@ after bit, carry = getBit(s, bitIdx-1, carry) :: unfold big1: (255 <= outIdx && outIdx <= 300) ==> p2(outIdx + 1) >= pow256(32)
+//@ after bit, carry = getBit(s, bitIdx-1, carry) :: unfold top1 [from opaque:p2]: (0 <= be(s) && be(s) < p2(outIdx + 1)) ==> vm(be(s), p2(outIdx + 1)) == be(s)
+//@ after d := getBits(s, bitIdx-1, w) :: unfold pk: (1 <= w && w <= 7 && 0 <= outIdx && outIdx <= 300) ==> p2(outIdx + w + 1) == 2 * pow2w(w) * p2(outIdx)
+//@ after d := getBits(s, bitIdx-1, w) :: trust m: (1 <= w && w <= 7 && p2(outIdx) >= 1 && be(s) >= 0) ==> vm(be(s), 2 * pow2w(w) * p2(outIdx)) == vm(be(s), p2(outIdx)) + p2(outIdx) * (vd(be(s), p2(outIdx)) % (2 * pow2w(w)))
+//@ after d := getBits(s, bitIdx-1, w) :: unfold bigw: (1 <= w && w <= 7 && 256 <= outIdx + w + 1 && outIdx <= 300) ==> p2(outIdx + w + 1) >= pow256(32)
+//@ after d := getBits(s, bitIdx-1, w) :: unfold topw [from opaque:p2]: (0 <= be(s) && be(s) < p2(outIdx + w + 1)) ==> vm(be(s), p2(outIdx + w + 1)) == be(s)
+//@ after out[outIdx] = d :: trust upd: nsum_upd(prev(arr(out)), arr(out), off(out), outIdx, n)
+//@ after out[n-1] = 1 :: trust updc: nsum_upd(prev(arr(out)), arr(out), off(out), n - 1, n)
 //@ loop 1
 //@ invariant idx: 0 <= outIdx && outIdx <= n + 7
+//@ invariant zero: forall(j, outIdx, n, out[j] == 0)
+//@ invariant digits: forall(j, 0, n, nafdigit(out[j], w))
+//@ invariant space: forall(j, 0, n, out[j] != 0 ==> j + w < outIdx)
+//@ invariant spacing: forall(j, 0, n, out[j] != 0 ==> forall(t, j + 1, j + w + 1, t < n ==> out[t] == 0))
+//@ invariant carryidx: carry ==> outIdx <= n - 1
+//@ invariant top: nafstd(s, n) && outIdx >= 256 ==> vm(be(s), p2(outIdx)) == be(s)
+//@ invariant sum: nafstd(s, n) ==> nsum(out, 0, n) + ite(carry, p2(outIdx), 0) == vm(be(s), p2(outIdx))
 
+// getBit / getBits: memory safety for every length. Values: nafraw(s, idx) is bit idx of s counted from the most
+// significant bit of s[0]; getBit returns it xor carry, and the carry out; getBits returns w+1 bits whose lowest
+// is that bit, and nothing above the most significant bit of s (result < 2^(idx+1) near the top). For a 32-byte
+// s, with V = be(s) and j = 255 - idx the position from the least significant bit: the bit is bit j of V and
+// getBits returns bits j .. j+w of V.
+//@ define nafV(s) = be(s[0:32])
+//@ define nafbit(s, j) = ext(0, 0, nafV(s) >> zx(256, j)) == bvc(1, 1)
+//@ define nafrawbv(s, idx) = (s[idx >> 3] >> u(7 - idx & 7)) & 1 == 1
 //@ func utils.getBit
 //@ mode bv
 //@ requires idx: 0 <= idx && idx < 8 * len(s)
 //@ ensures bit: result0 == 0 || result0 == 1
+//@ ensures rawg: (result0 == 1) == (nafrawbv(s, idx) != carry)
+//@ ensures coutg: result1 == (nafrawbv(s, idx) && carry)
+//@ ensures rawv: len(s) == 32 ==> nafrawbv(s, idx) == nafbit(s, 255 - idx)
 //@ assigns nothing
 
 //@ func utils.getBits
 //@ mode bv
 //@ requires idx: 0 <= idx && idx < 8 * len(s)
 //@ requires w: 1 <= w && w <= 7
-//@ ensures range: 0 <= result && result < 256
+//@ ensures range: 0 <= result && result < (1 << (w + 1))
+//@ ensures low: (result & 1 == 1) == nafrawbv(s, idx)
+//@ ensures topz: idx <= 7 ==> result < (1 << (idx + 1))
+//@ ensures val: len(s) == 32 ==> zx(256, result) == (nafV(s) >> zx(256, 255 - idx)) & ((bvc(256, 1) << zx(256, w + 1)) - bvc(256, 1))
+//@ assigns nothing
+
+// integer views of the two contracts above (bit-vector shift and mask read as division and remainder;
+// nafraw(s, idx) in {0,1} is the integer reading of nafrawbv)
+//@ uf nafraw Int 0 1
+//@ define pow2s(k) = ite(k <= 0, 1, ite(k == 1, 2, ite(k == 2, 4, ite(k == 3, 8, ite(k == 4, 16, ite(k == 5, 32, ite(k == 6, 64, ite(k == 7, 128, 256))))))))
+//@ assume func utils.getBit#int
+//@ requires idx: 0 <= idx && idx < 8 * len(s)
+//@ ensures bit: result0 == 0 || result0 == 1
+//@ ensures rawg: (result0 == 1) == ((nafraw(s, idx) == 1) != carry)
+//@ ensures coutg: result1 == ((nafraw(s, idx) == 1) && carry)
+//@ ensures rawv: len(s) == 32 ==> nafraw(s, idx) == vd(be(s), p2(255 - idx)) % 2
+//@ assigns nothing
+
+//@ assume func utils.getBits#int
+//@ requires idx: 0 <= idx && idx < 8 * len(s)
+//@ requires w: 1 <= w && w <= 7
+//@ ensures range: 0 <= result && result < 2 * pow2w(w)
+//@ ensures low: result % 2 == nafraw(s, idx)
+//@ ensures topz: idx <= 7 ==> result < pow2s(idx + 1)
+//@ ensures val: len(s) == 32 ==> result == vd(be(s), p2(255 - idx)) % (2 * pow2w(w))
 //@ assigns nothing
